@@ -136,9 +136,13 @@ class SStr(str):
         return seq
 
     def __format__(self, spec):
-        # f-strings are answered by fstr() (front-end rewrite); format()/str.format/%-formatting of a
-        # symbolic string would bake the placeholder into a real str
-        raise Unsupported("format() of a symbolic string")
+        # f-strings are answered by fstr() (front-end rewrite).  "{}".format(s) and format(s) get the
+        # placeholder token, exactly as "_".join([s, ...]) does: a real str that carries the token is
+        # decoded back into the symbolic term wherever the model consumes it (decode()); real str
+        # methods applied to such a string in between are outside the model (not detectable)
+        if spec:
+            raise Unsupported("format spec on a symbolic string")
+        return str.__str__(self)
 
     def __str__(self):
         return self
